@@ -218,6 +218,7 @@ theorem invId_step {c : Conn α} (hw : Inv c) (h : InvId c) (l : Label α) : Inv
           · exact invId_getGo hw h _ _ _ _ _
   | sclose req retry => exact invId_sclose hw h _ _
   | «end» => exact h
+  | evict _ _ => exact h
 
 theorem invId_runFrom {c : Conn α} (hw : Inv c) (h : InvId c) (ls : List (Label α)) : InvId (run c ls) := by
   induction ls generalizing c with
